@@ -353,6 +353,7 @@ func scenarios(tier string) []*engine.Scenario {
 func handover() []*engine.Scenario {
 	var out []*engine.Scenario
 	for _, sc := range c12.HandoverScenarios() {
+		packet := strings.HasPrefix(sc.Name, "packet")
 		sc.Name = "handover-" + sc.Name
 		inner := sc.Check
 		sc.Check = func(x *vrt.Exec) (string, bool, []*engine.Finding) {
@@ -360,9 +361,10 @@ func handover() []*engine.Scenario {
 			var keep []*engine.Finding
 			for _, f := range fs {
 				switch {
-				// (call-after-close: a connection or datagram taken by the generation that has already
-				// been stopped - its handler is on its way out, the item is not served)
-				case f.Sig == "lost-while-handle-open", f.Sig == "delivered-twice", f.Sig == "call-after-close", strings.HasPrefix(f.Sig, "crash{"), strings.HasPrefix(f.Sig, "deadlock"):
+				// (call-after-close, packet side only: a datagram taken by the generation that has already
+				// been stopped is not served - that handler's association table is torn down as it leaves;
+				// a connection taken the same way is still served to its end, which C11 allows)
+				case f.Sig == "lost-while-handle-open", f.Sig == "delivered-twice", f.Sig == "call-after-close" && packet, strings.HasPrefix(f.Sig, "crash{"), strings.HasPrefix(f.Sig, "deadlock"):
 					f.Msg = "hand-over of a retained address from the old to the new generation: " + f.Msg
 					keep = append(keep, f)
 				}
